@@ -17,6 +17,7 @@ inductive St where
   | kin (k : KSt)
   | cut (r : RSt)
   | ecut
+  | job (j : JSt)
   | misc
 
 def splitOnC (s : String) (c : String) : List String :=
@@ -155,6 +156,24 @@ def stepMisc : List String → String
   | ["uidx", lo, hi, n] => toString (uidx (natOr lo) (natOr hi) (natOr n))
   | _ => "bad-op"
 
+def showOptNat : Option Nat → String
+  | none => "-"
+  | some n => toString n
+
+def showStart (r : JSt × Option JObs) : JSt × String :=
+  match r.2 with
+  | some (d, c) => (r.1, s!"dep {showOptNat d} | only@{showOptNat c} ; ok")   -- `ok`: C16.job_resumes_restored_cut
+  | none => (r.1, "bad")
+
+def stepJob (j : JSt) : List String → JSt × String
+  | ["deploy"] => showStart (jstep j (.start false))
+  | ["fail"] => showStart (jstep j (.start false))
+  | ["fail", "race"] => showStart (jstep j (.start true))
+  | ["ckpt", p] => ((jstep j (.ckpt (natOr p) false)).1, s!"ck {j.lastId + 1}")
+  | ["ckpt", p, "hold"] => ((jstep j (.ckpt (natOr p) true)).1, s!"ck {j.lastId + 1} held")
+  | ["release"] => ((jstep j .release).1, "ok")
+  | _ => (j, "bad-op")
+
 def step (st : St) (ws : List String) : St × String :=
   match st with
   | .kin k => let (k', o) := stepKin k ws; (.kin k', o)
@@ -162,6 +181,7 @@ def step (st : St) (ws : List String) : St × String :=
   | .ecut => (.ecut, match ws with   -- free-running real reader: every op evaluates C16.cursor_matches_cut, spec `ok`
       | ["assign", _] | ["pause", _] | ["barrier", _] => "ok"
       | _ => "bad-op")
+  | .job j => let (j', o) := stepJob j ws; (.job j', o)
   | .misc => (.misc, stepMisc ws)
 
 def initSt (header : String) : St :=
@@ -171,6 +191,7 @@ def initSt (header : String) : St :=
     .kin { impl := s, spec := s }
   | "M" :: "C16" :: "cut" :: _ => .cut {}
   | "M" :: "C16" :: "ecut" :: _ => .ecut
+  | "M" :: "C16" :: "job" :: _ => .job {}
   | _ => .misc
 
 def handle (lines : Array String) (i : Nat) (out : Array String) : Nat × Array String :=
